@@ -155,13 +155,15 @@ def c13_pipeline(ctx, colour, diff, nbase, rest_first, stages):
     ctx.ensure("the baseline itself has zero difference signal", eq(ca._subtract_background(mk(base_arr)), np.zeros(shape)))
 
 
-@ob("C13.diff", cases=product_cases(colour=(False, True), with_base=(True, False)), mods=MODS, funcs=FUNCS, stubs=STUBS, samples=(2, 5),
-    cite="the positive and negative parts sum to the absolute difference and differ by the plain one")
-def c13_diff(ctx, colour, with_base):
+@ob("C13.diff", cases=product_cases(colour=(False, True), with_base=(True, False), scale=(1.0, 255.0, -300.0)), mods=MODS, funcs=FUNCS, stubs=STUBS, samples=(2, 5),
+    cite="the positive and negative parts sum to the absolute difference and differ by the plain one",
+    note="float data of any magnitude: unit range, 0..255 gray values kept as floats, signed physical data (the proof is over all reals; the scale only moves the concrete companions)")
+def c13_diff(ctx, colour, with_base, scale=1.0):
     shape = (2, 2, 3) if colour else (2, 2)
     mk = lambda arr: (darsia.OpticalImage if colour else darsia.ScalarImage)(arr, dimensions=[1.0, 1.0])
-    base_arr = ctx.array("base", shape, sample=(0.0, 1.0))
-    probe_arr = ctx.array("probe", shape, sample=(0.0, 1.0))
+    rng_ = (0.0, scale) if scale > 0 else (scale, -scale)
+    base_arr = ctx.array("base", shape, sample=rng_)
+    probe_arr = ctx.array("probe", shape, sample=rng_)
     res = {}
     for opt in DIFFS:
         ca = darsia.ConcentrationAnalysis(base=mk(base_arr) if with_base else None, **{"diff option": opt})
